@@ -6,7 +6,7 @@ from typing import Dict, List, Optional
 
 from ..loopflow import count_in_path, first_index
 from ..model import AnalysisError, FuncInfo, Program, dotted, own_nodes, unparse
-from ..symex import atoms_of, facts_for
+from ..symex import atoms_of, facts_for, phi_alternatives
 from .common import U, bind_args, const_value, enum_member, is_self_attr, kwarg, np_call, returns_of, short
 from .solveloop import is_aug, is_method_call, solve_loop
 
@@ -26,8 +26,12 @@ def run(prog: Program, rep, tier: str) -> None:
     rep.explanation = EXPLANATION
     L = solve_loop(prog)
     sv, ff = L.fi, L.ff
+    N = L.names()
+    for role in ("iterate", "iteration", "accepted", "lamb"):
+        if N.get(role) is None:
+            raise AnalysisError(f"Solver.solve: cannot identify the variable playing the role '{role}' in the main loop")
     is_step = lambda n: is_method_call(n, "_compute_step")
-    is_inc = lambda n: is_aug(n, "iteration")
+    is_inc = lambda n: is_aug(n, N["iteration"])
 
     def is_cb(n):
         return isinstance(n, ast.Call) and U(n.func) == "self.callbacks" and n.args and enum_member(prog, sv, n.args[0], "pygradflow.callbacks.CallbackType") == "ComputedStep"
@@ -51,7 +55,6 @@ def run(prog: Program, rep, tier: str) -> None:
                  f"(decisions: {[('T' if it[2] else 'F') + ':' + U(it[1])[:40] for it in p.items if it[0] == 'test']})", sv.loc(L.loop))
     else:
         rep.ok("one-step-one-announcement-one-count", sv.short, f"each of the {nb} back-edge paths has one step, then one announcement, and one increment")
-    # after the step, the only other exit is the lamb_max raise
     for p in L.paths:
         if p.end in ("break", "return") and count_in_path(p, is_step) > 0:
             rep.fail("one-step-one-announcement-one-count", sv.qualname, "exit after step without announcement", "VIOLATED: the loop can be left after a step computation without announcing it", sv.loc(L.loop))
@@ -59,7 +62,8 @@ def run(prog: Program, rep, tier: str) -> None:
 
     # --- 2. announcement arguments --------------------------------------------------------
     sa = L.step_args()
-    itp = [p for p in L.compute_step.params if p != "self"][1]
+    cps = [p for p in L.compute_step.params if p != "self"]
+    itp, dtp = cps[1], cps[3]
     cbs = [n for n in ast.walk(L.loop) if is_cb(n)]
     rep.pin("ComputedStep announcement sites", len(cbs), 1)
     for c in cbs:
@@ -71,94 +75,95 @@ def run(prog: Program, rep, tier: str) -> None:
                   "the announcement carries (iterate the step started from, the step's candidate iterate, the step's acceptance flag)", sv.loc(c))
 
     # --- 3. acceptance is one block ---------------------------------------------------------------
-    incs = [q for q in ff.order if L.in_loop(q) and is_inc(q.stmt)]
-    base = list(incs[-1].facts) if incs else L.loop_base_facts()  # what every completed iteration satisfies
+    base = L.completed_iteration_facts()
 
     def extra_facts(si):
         return [f for f in si.facts if f not in base]
 
     groups = {
-        "iterate": [s for s in L.stores_in_loop("iterate")],
-        "accepted_steps": L.stores_in_loop("accepted_steps"),
-        "path_dist": L.stores_in_loop("path_dist"),
+        "the carried iterate": L.stores_in_loop(N["iterate"]),
+        "the accepted-step counter": L.stores_in_loop(N["accepted"]),
     }
-    appends = {"path": [], "path_times": []}
+    if N.get("path_dist"):
+        groups["the accumulated path length"] = L.stores_in_loop(N["path_dist"])
+    appends = {"path": [], "times": []}
     for s in ff.order:
-        if L.in_loop(s) and isinstance(s.stmt, ast.Expr) and is_method_call(s.stmt.value, "append") and isinstance(s.stmt.value.func.value, ast.Name) \
-                and s.stmt.value.func.value.id in appends:
-            appends[s.stmt.value.func.value.id].append(s)
-    # any other mutation of the path lists in the loop
+        if L.in_loop(s) and isinstance(s.stmt, ast.Expr) and is_method_call(s.stmt.value, "append") and isinstance(s.stmt.value.func.value, ast.Name):
+            nm = s.stmt.value.func.value.id
+            for role in ("path", "times"):
+                if N.get(role) == nm:
+                    appends[role].append(s)
+    path_names = {N.get("path"), N.get("times")} - {None}
     for s in ff.order:
         if not L.in_loop(s):
             continue
         for n in ast.walk(s.stmt) if not isinstance(s.stmt, (ast.If, ast.While, ast.For, ast.Try, ast.With)) else []:
-            if isinstance(n, ast.Call) and isinstance(n.func, ast.Attribute) and isinstance(n.func.value, ast.Name) and n.func.value.id in ("path", "path_times") \
+            if isinstance(n, ast.Call) and isinstance(n.func, ast.Attribute) and isinstance(n.func.value, ast.Name) and n.func.value.id in path_names \
                     and n.func.attr not in ("append",):
                 rep.fail("acceptance-one-block", sv.qualname, short(s.stmt), "VIOLATED: the recorded path is modified other than by append", sv.loc(s.stmt))
-            if isinstance(n, ast.Name) and isinstance(n.ctx, ast.Store) and n.id in ("path", "path_times"):
+            if isinstance(n, ast.Name) and isinstance(n.ctx, ast.Store) and n.id in path_names:
                 rep.fail("acceptance-one-block", sv.qualname, short(s.stmt), "VIOLATED: the recorded path is rebound inside the loop", sv.loc(s.stmt))
-    for name, ss in list(groups.items()) + list(appends.items()):
-        if name in ("iterate", "accepted_steps") or ss:
-            rep.check(len(ss) == 1, "acceptance-one-block", sv.qualname, name, f"`{name}` is updated at exactly one place in the loop (found {len(ss)})", sv.loc(L.loop))
+    labelled = list(groups.items()) + [("the recorded path", appends["path"]), ("the recorded model times", appends["times"])]
+    for name, ss in labelled:
+        is_path = name.startswith("the recorded")
+        if not is_path or ss:
+            rep.check(len(ss) == 1, "acceptance-one-block", sv.qualname, name, f"{name} is updated at exactly one place in the loop (found {len(ss)})", sv.loc(L.loop))
         for s in ss:
             ex = extra_facts(s)
-            # allowed: the post-veto acceptance, the lamb_max guard having passed, and `path is not None` for the path lists
-            allowed = []
+            leftover = []
             veto_ok = L.post_veto_fact(s)
             for f in ex:
                 if f[0] == "truthy" and ".accept" in f[1]:
                     continue
                 if f[0] == "<" and f[2] == "self.params.lamb_max":
                     continue
-                if name in appends and f[0] == "isnot" and f[2] == "None" and "__phi__" in f[1] and "None" in f[1]:
+                if is_path and f[0] == "isnot" and f[2] == "None" and "__phi__" in f[1] and "None" in f[1]:
                     continue
-                allowed.append(f)
-            rep.check(veto_ok and not allowed, "acceptance-one-block", sv.qualname, short(s.stmt),
-                      f"`{short(s.stmt, 50)}` is guarded by exactly the post-veto acceptance" + (" and `path is not None`" if name in appends else "") +
-                      (f" (unexpected extra conditions: {[(a[0], a[1][:60], a[2]) for a in allowed]})" if allowed else ""), sv.loc(s.stmt))
-    # values
-    for s in groups["iterate"]:
+                if is_path and f[0] == "truthy" and f[1].endswith("params.collect_path"):
+                    continue
+                leftover.append(f)
+            rep.check(veto_ok and not leftover, "acceptance-one-block", sv.qualname, short(s.stmt),
+                      f"`{short(s.stmt, 50)}` is guarded by exactly the post-veto acceptance" + (" and the path-collection switch" if is_path else "") +
+                      (f" (unexpected extra conditions: {[(a[0], a[1][:60], a[2]) for a in leftover]})" if leftover else ""), sv.loc(s.stmt))
+    for s in groups["the carried iterate"]:
         v = U(ff.resolved(s.stmt, s.stmt.value))
         rep.check(v.endswith(".iterate") and "_compute_step(" in v, "acceptance-one-block", sv.qualname, short(s.stmt), "the new iterate is the candidate of this trial step", sv.loc(s.stmt))
-    for s in groups["accepted_steps"]:
+    for s in groups["the accepted-step counter"]:
         rep.check(isinstance(s.stmt, ast.AugAssign) and isinstance(s.stmt.op, ast.Add) and const_value(s.stmt.value) == 1, "acceptance-one-block", sv.qualname, short(s.stmt),
-                  "accepted_steps is incremented by one", sv.loc(s.stmt))
+                  "the accepted-step counter is incremented by one", sv.loc(s.stmt))
     for s in appends["path"]:
         v = U(ff.resolved(s.stmt, s.stmt.value.args[0]))
         rep.check(v.endswith(".iterate.z") and "_compute_step(" in v, "acceptance-one-block", sv.qualname, short(s.stmt), "the path records the accepted candidate's z", sv.loc(s.stmt))
-    d = L.last_def_before_loop("accepted_steps")
-    rep.check(d is not None and const_value(d.stmt.value) == 0, "acceptance-one-block", sv.qualname, "accepted_steps = 0", "accepted_steps starts at 0", sv.loc())
+    d = L.last_def_before_loop(N["accepted"])
+    rep.check(d is not None and const_value(d.stmt.value) == 0, "acceptance-one-block", sv.qualname, "accepted-step counter = 0", "the accepted-step counter starts at 0", sv.loc())
     # initial path / times are paired
-    p0 = L.last_def_before_loop("path")
-    t0 = L.last_def_before_loop("path_times")
-    inits = [s for s in ff.order if s.index < L.loop_si.index and isinstance(s.stmt, (ast.Assign, ast.AnnAssign)) and
-             any(isinstance(t, ast.Name) and t.id in ("path", "path_times") for t in (s.stmt.targets if isinstance(s.stmt, ast.Assign) else [s.stmt.target]))]
-    ok_init = False
     lists = {}
-    for s in inits:
-        tg = (s.stmt.targets if isinstance(s.stmt, ast.Assign) else [s.stmt.target])[0].id
-        if isinstance(s.stmt.value, ast.List) and len(s.stmt.value.elts) == 1:
-            lists[tg] = (s, ff.resolved(s.stmt, s.stmt.value.elts[0]))
-    if "path" in lists and "path_times" in lists:
-        sp, vp = lists["path"]
-        st_, vt = lists["path_times"]
-        ok_init = sp.facts == st_.facts and ("truthy", "self.params.collect_path", None) in sp.facts and U(vp).endswith(".z") and "create_transformed_iterate" in U(vp) and const_value(vt) == 0
-    rep.check(ok_init, "path-initialisation", sv.qualname, "path = [initial_iterate.z]; path_times = [0.0]",
-              "with collect_path the path starts with the transformed start point at model time 0", sv.loc())
+    for s in ff.order:
+        if s.index >= L.loop_si.index or not isinstance(s.stmt, (ast.Assign, ast.AnnAssign)):
+            continue
+        tg = (s.stmt.targets if isinstance(s.stmt, ast.Assign) else [s.stmt.target])[0]
+        if isinstance(tg, ast.Name) and tg.id in path_names and isinstance(s.stmt.value, ast.List) and len(s.stmt.value.elts) == 1:
+            lists[tg.id] = (s, ff.resolved(s.stmt, s.stmt.value.elts[0]))
+    ok_init = False
+    if N.get("path") in lists and N.get("times") in lists:
+        sp, vp = lists[N["path"]]
+        st_, vt = lists[N["times"]]
+        ok_init = sp.facts == st_.facts and U(vp).endswith(".z") and "create_transformed_iterate" in U(vp) and const_value(vt) == 0
+    if appends["path"] or appends["times"]:
+        rep.check(ok_init, "path-initialisation", sv.qualname, "path = [initial_iterate.z]; path_times = [0.0]",
+                  "the path starts with the transformed start point at model time 0 (both lists initialised together)", sv.loc())
 
     # --- 4. model time uses the step size that was used ----------------------------------------------
-    dtp = [p for p in L.compute_step.params if p != "self"][3]
-    for s in appends["path_times"]:
+    for s in appends["times"]:
         v = ff.resolved(s.stmt, s.stmt.value.args[0])
-        ok = isinstance(v, ast.BinOp) and isinstance(v.op, ast.Add)
         inc = None
-        if ok:
+        if isinstance(v, ast.BinOp) and isinstance(v.op, ast.Add):
             for a, b in ((v.left, v.right), (v.right, v.left)):
-                if U(a) == "path_times[-1]" or U(a).endswith("[-1]"):
+                if U(a).endswith("[-1]"):
                     inc = b
         rep.check(inc is not None and U(inc) == U(sa[dtp]), "model-time-increment", sv.qualname, short(s.stmt),
                   f"model time advances by the dt that was passed to _compute_step in this iteration (increment {U(inc) if inc is not None else None}; dt argument {U(sa[dtp])})", sv.loc(s.stmt))
-    rep.pin("model-time append sites", len(appends["path_times"]), 1)
+    rep.pin("model-time append sites", len(appends["times"]), 1)
 
     # --- 5. result fields --------------------------------------------------------------------------------
     res = [n for n in own_nodes(sv.node) if isinstance(n, ast.Call) and dotted(n.func) == "SolverResult"]
@@ -170,9 +175,10 @@ def run(prog: Program, rep, tier: str) -> None:
     if b is None:
         raise AnalysisError("cannot bind SolverResult arguments")
     rv = {k: U(ff.resolved(si.stmt, v)) for k, v in b.items() if isinstance(v, ast.AST)}
-    rep.check(rv.get("iterations", "").startswith("__loop__('iteration'"), "result-fields", sv.qualname, "iterations", "result.iterations is the loop counter", sv.loc(res[0]))
-    rep.check(rv.get("num_accepted_steps", "").startswith("__loop__('accepted_steps'"), "result-fields", sv.qualname, "num_accepted_steps", "result.num_accepted_steps is the acceptance counter", sv.loc(res[0]))
-    want_restore = "self.transform.restore_sol(__loop__('iterate'"
+    IT = f"__loop__('{N['iterate']}'"
+    rep.check(rv.get("iterations", "").startswith(f"__loop__('{N['iteration']}'"), "result-fields", sv.qualname, "iterations", "result.iterations is the loop counter", sv.loc(res[0]))
+    rep.check(rv.get("num_accepted_steps", "").startswith(f"__loop__('{N['accepted']}'"), "result-fields", sv.qualname, "num_accepted_steps", "result.num_accepted_steps is the acceptance counter", sv.loc(res[0]))
+    want_restore = f"self.transform.restore_sol({IT}"
     for k, idx in (("x", 0), ("y", 1), ("d", 2)):
         t = rv.get(k, "")
         ok = t.startswith(f"__item__({want_restore}") and t.endswith(f", {idx})") and "_compute_step(" not in t
@@ -181,24 +187,88 @@ def run(prog: Program, rep, tier: str) -> None:
     for c in rs_calls:
         s2 = ff.stmt_of(c)
         a = [U(ff.resolved(s2.stmt, x)) for x in c.args]
-        ok = len(a) == 3 and a[0].startswith("__loop__('iterate'") and a[0].endswith(".x") and a[1].endswith(".y") and a[2].endswith(".bounds_dual") \
-            and all(x.startswith("__loop__('iterate'") for x in a)
+        ok = len(a) == 3 and a[0].endswith(".x") and a[1].endswith(".y") and a[2].endswith(".bounds_dual") and all(x.startswith(IT) for x in a)
         rep.check(ok, "result-fields", sv.qualname, short(s2.stmt), "restore_sol receives (iterate.x, iterate.y, iterate.bounds_dual) of the last accepted iterate", sv.loc(c))
     sp_calls = [n for n in own_nodes(sv.node) if is_method_call(n, "_set_path")]
     for c in sp_calls:
         s2 = ff.stmt_of(c)
         a = [U(ff.resolved(s2.stmt, x)) for x in c.args]
-        pv = U(ff.resolved(s2.stmt, ast.Name(id="path", ctx=ast.Load())))
-        tv = U(ff.resolved(s2.stmt, ast.Name(id="path_times", ctx=ast.Load())))
+        pv = U(ff.resolved(s2.stmt, ast.Name(id=N["path"] or "path", ctx=ast.Load())))
+        tv = U(ff.resolved(s2.stmt, ast.Name(id=N["times"] or "path_times", ctx=ast.Load())))
         ok = len(a) == 2 and a[0] == f"np.vstack({pv}).T" and a[1] == f"np.hstack({tv})"
         rep.check(ok, "result-fields", sv.qualname, short(s2.stmt), "_set_path receives the stacked path (one column per point) and the stacked model times", sv.loc(c))
-    # dist_factor
-    df = [s for s in ff.order if isinstance(s.stmt, ast.Assign) and any(isinstance(t, ast.Name) and t.id == "dist_factor" for t in s.stmt.targets)]
-    for s in df:
-        v = s.stmt.value
-        ok = isinstance(v, ast.IfExp) and atoms_of(v.test, True) in ([("!=", "direct_dist", "0.0")], [("!=", "direct_dist", "0")]) and \
-            U(v.body) == "path_dist / direct_dist" and (const_value(v.orelse) or 0) >= 1
-        asserted = any(isinstance(q.stmt, ast.Assert) and q.index < s.index and "path_dist >= direct_dist" in U(q.stmt.test) for q in ff.order)
-        rep.check(ok and asserted, "dist-factor-shape", sv.qualname, short(s.stmt),
-                  "dist_factor is path_dist/direct_dist for direct_dist != 0 and a literal >= 1 otherwise, after asserting path_dist >= direct_dist", sv.loc(s.stmt))
-    rep.check(rv.get("dist_factor", "") != "", "result-fields", sv.qualname, "dist_factor", "result.dist_factor is passed", sv.loc(res[0]))
+    dist_factor(prog, rep, L, res[0], si)
+    pass_through(prog, rep)
+    # announcements go to this solver's own registry
+    init = prog.func("pygradflow.solver.Solver.__init__")
+    cb = [n for n in own_nodes(init.node) if isinstance(n, ast.Assign) and any(U(t) == "self.callbacks" for t in n.targets)]
+    ok = len(cb) == 1 and isinstance(cb[0].value, ast.Call) and dotted(cb[0].value.func) == "Callbacks" and not cb[0].value.args
+    rep.check(ok, "own-callback-registry", init.qualname, short(cb[0]) if cb else "self.callbacks", "every Solver creates its own callback registry (announcements cannot leak between solvers)", init.loc())
+
+
+def pass_through(prog, rep) -> None:
+    """the step size (and iterate, penalty) the solver hands to a trial is the one the controller's step() receives."""
+    for q, callee_attr in (("pygradflow.solver.Solver._compute_step", "compute_step"), ("pygradflow.step.step_control.StepController.compute_step", "step")):
+        f = prog.func(q)
+        ff = facts_for(f)
+        calls = [n for n in own_nodes(f.node) if is_method_call(n, callee_attr)]
+        if len(calls) != 1:
+            raise AnalysisError(f"{f.short}: expected one call of {callee_attr}")
+        si = ff.stmt_of(calls[0])
+        ps = [p for p in f.params if p != "self"]
+        want = [p for p in ps if p != "controller"]
+        got = [U(ff.resolved(si.stmt, a)) for a in calls[0].args]
+        rep.check(got == want and not calls[0].keywords, "trial-uses-given-step-size", f.qualname, short(si.stmt),
+                  f"{f.name} hands its own (iterate, rho, dt, display, timer) unchanged to {callee_attr} (found {got})", f.loc(calls[0]))
+
+
+def dist_factor(prog, rep, L, res_call, res_si) -> None:
+    """result.dist_factor is P / D guarded by D != 0 (else a literal >= 1), D the distance between the final and the initial
+    iterate, after `assert P >= D (or close)`; accepted in the conditional-expression and in the if/else form."""
+    sv, ff = L.fi, L.ff
+    v = kwarg(res_call, "dist_factor")
+    if v is None:
+        rep.fail("dist-factor-shape", sv.qualname, "SolverResult(...)", "VIOLATED: SolverResult receives no dist_factor", sv.loc(res_call))
+        return
+    val = ff.resolved(res_si.stmt, v)
+    alts = phi_alternatives(val)
+    divs = [a for a in alts if isinstance(a, ast.BinOp) and isinstance(a.op, ast.Div)]
+    consts = [a for a in alts if const_value(a) is not None]
+    if len(alts) == 1 and len(divs) == 1:
+        rep.fail("dist-factor-shape", sv.qualname, "dist_factor", f"VIOLATED: dist_factor is the bare quotient {U(val)[:80]} with no special case for a run that ends where it started "
+                 f"(zero displacement must give a factor of at least one)", sv.loc(res_call))
+        return
+    if len(alts) != 2 or len(divs) != 1 or len(consts) != 1:
+        raise AnalysisError(f"dist_factor is not in a recognised form (quotient / constant alternatives): {U(val)[:120]}")
+    P, D = U(divs[0].left), U(divs[0].right)
+    ok_shape = D.endswith(")") and ".dist(" in D and "create_transformed_iterate" in D and const_value(consts[0]) >= 1
+    # the guard
+    guard = False
+    if isinstance(val, ast.IfExp):
+        at = atoms_of(val.test, True)
+        guard = (at == [("!=", D, "0.0")] or at == [("!=", D, "0")]) and val.body is not None and U(val.body) == U(divs[0])
+        if not guard:
+            at = atoms_of(val.test, True)
+            guard = at in ([("==", D, "0.0")], [("==", D, "0")]) and U(val.orelse) == U(divs[0])
+    else:
+        # if/else statement form: find the two stores
+        raw = v
+        if isinstance(raw, ast.Name):
+            stores = [s for s in ff.order if isinstance(s.stmt, ast.Assign) and any(isinstance(t, ast.Name) and t.id == raw.id for t in s.stmt.targets)]
+            g1 = g2 = False
+            for s in stores:
+                rvv = ff.resolved(s.stmt, s.stmt.value)
+                if U(rvv) == U(divs[0]):
+                    g1 = ("!=", D, "0.0") in s.facts or ("!=", D, "0") in s.facts
+                elif const_value(rvv) is not None:
+                    g2 = ("==", D, "0.0") in s.facts or ("==", D, "0") in s.facts
+            guard = g1 and g2
+    asserted = False
+    for q in ff.order:
+        if isinstance(q.stmt, ast.Assert) and q.index < res_si.index:
+            t = U(ff.resolved(q.stmt, q.stmt.test))
+            if f"{D} <= {P}" in t or f"{P} >= {D}" in t:
+                asserted = True
+    rep.check(ok_shape and guard and asserted, "dist-factor-shape", sv.qualname, "dist_factor",
+              f"dist_factor is path_length/direct_distance where the distance is non-zero and a literal >= 1 otherwise, after asserting path_length >= direct_distance "
+              f"(quotient {P[:40]} / {D[:60]}; guard ok: {guard}; asserted: {asserted})", sv.loc(res_call))
